@@ -358,6 +358,55 @@ def b_grid(ctx):
     ctx.sample({'E': 206e3, 'K': 1184.0, 'n': 0.187, 'K_p': 3.5, 'L': 400.0})
 
 
+
+@bounded('C06', 'mixed-load-arrays', shards=8)
+def b_mixed(ctx):
+    """arrays of MANY DIFFERENT loads (the vectorised solver converges for some entries and not for others; the laws then retry entry by entry): every entry of
+    stress(array) / stress_secondary_branch(array) is the root of the defining equation for its own load, for K_p close to 1 (narrow bracket) and the guideline value"""
+    import warnings
+    import numpy as np
+    warnings.simplefilter('ignore')
+    E, K, n = 206e3, 1184.0, 0.187
+    sets = 6 if ctx.tier == 'quick' else 40
+    ctx.bound = f"E={E}, K'={K}, n'={n}, K_p in (1.001, 1.01, 3.5), {sets} seeded sets of 40 loads uniform in +-[50, 3000] and one regular grid 50..1500 with 10 mirrored, default tolerance, both branches"
+    ctx.rule = "every array entry is one case; non-trivial: plastic regime"
+    for Kp in (1.001, 1.01, 3.5):
+        for k in range(sets + 1):
+            if not ctx.mine():
+                continue
+            rng = np.random.default_rng(k)        # the sets do not depend on VERIF_SEED: the known finding below is identified by (K_p, set, load)
+            if k == 0:
+                base = np.linspace(50.0, 1500.0, 30)
+                loads = np.concatenate([base, -base[::3]])
+            else:
+                loads = rng.uniform(50.0, 3000.0, 40) * rng.choice([-1.0, 1.0], 40)
+            for name, law in _laws(E, K, n, Kp):
+                for secondary in (False, True):
+                    fn = law.stress_secondary_branch if secondary else law.stress
+                    arg = 2 * loads if secondary else loads
+                    try:
+                        got = np.asarray(fn(arg), dtype=float)
+                    except Exception as e:   # noqa
+                        ctx.count(f'solver-exception:{name}')
+                        continue
+                    for LL, s in zip(arg, got):
+                        ctx.case(abs(LL) > K / 10, key=(name, Kp, k, secondary, float(LL)))
+                        root = _true_root(name, E, K, n, Kp, abs(float(LL)), secondary, abs(float(s)) if np.isfinite(s) else abs(float(LL)))
+                        if root is None:
+                            ctx.count('no-independent-root')
+                            continue
+                        root = np.sign(LL) * root
+                        # default tolerance 1e-4 (absolute + relative) of the iteration, factor 10 as in the grid check
+                        if not np.isfinite(s) or abs(s - root) > 10 * (1e-4 + 1e-4 * abs(root)):
+                            ctx.fail(f'C06:mixed-array:{name}:{"secondary" if secondary else "primary"}:K_p={Kp}:set={k}:load={float(LL):.6g}',
+                                     f'{name}.{"stress_secondary_branch" if secondary else "stress"}(array of 40 loads)[load {LL}] = {s}, root of the equation: {root} (K_p={Kp}, load set {k})',
+                                     f"import numpy as np\nfrom pylife.materiallaws.notch_approximation_law_seegerbeste import SeegerBeste\nfrom pylife.materiallaws.notch_approximation_law import ExtendedNeuber\n"
+                                     f"law = {'SeegerBeste' if name == 'seegerbeste' else 'ExtendedNeuber'}({E}, {K}, {n}, {Kp})\nloads = np.array({[float(v) for v in arg]!r})\n"
+                                     f"got = law.{'stress_secondary_branch' if secondary else 'stress'}(loads)\ni = list(loads).index({float(LL)!r})\nprint(got[i], 'independent root:', {float(root)!r})\n"
+                                     f"assert abs(got[i] - {float(root)!r}) <= 10 * (1e-4 + 1e-4 * abs({float(root)!r}))\n")
+    ctx.sample({'K_p': 1.001, 'loads': '40 uniform in +-[50, 3000]'})
+
+
 META = {
     'level': 'other',
     'explanation': "mixed. Proved for the extended Neuber law: every implicit function is the law's defining equation (both branches, both directions), the analytic derivatives "
